@@ -159,8 +159,12 @@ func genScanTok(e *Env) error {
 				}
 			}
 			tp.KeywordSrc = site
+			// The keyword table is emitted from keyword_beg / keyword_end / tokens in any case; if the
+			// site that builds the map (init) or reads it (Lookup) is no longer in the shape this
+			// generator understands, that is recorded (static_gen: unparsed ...) and the table is tied
+			// to the code by the dynamic comparison only (token.Lookup on every spelling, C33).
 			if !okShape {
-				return fmt.Errorf("%s: init() no longer fills keywords with `for i := keyword_beg + 1; i < keyword_end; i++ { keywords[tokens[i]] = i }` (found: %q)", sp.dir, site)
+				tp.Notes = append(tp.Notes, fmt.Sprintf("static_gen: unparsed %s init(): expected `for i := keyword_beg + 1; i < keyword_end; i++ { keywords[tokens[i]] = i }`", sp.dir))
 			}
 			lk := p.Func("Lookup")
 			if lk == nil {
@@ -168,7 +172,7 @@ func genScanTok(e *Env) error {
 			}
 			lsrc := strings.Join(strings.Fields(p.Src(lk.Body)), " ")
 			if !(strings.Contains(lsrc, ":= keywords[ident]; is_keyword { return tok }") && strings.HasSuffix(lsrc, "return IDENT }")) {
-				return fmt.Errorf("%s: Lookup is no longer `if tok, is_keyword := keywords[ident]; is_keyword { return tok }; return IDENT` (found: %q)", sp.dir, lsrc)
+				tp.Notes = append(tp.Notes, fmt.Sprintf("static_gen: unparsed %s Lookup: expected `if tok, is_keyword := keywords[ident]; is_keyword { return tok }; return IDENT`", sp.dir))
 			}
 			var kws []string
 			for i := b + 1; i < en; i++ {
